@@ -108,19 +108,35 @@ Definition final_outcome (excs : list exck) : outcome :=
   fold_left (fun _ e => outcome_of e) excs Success.
 
 (* a test: details attached at the start of setUp, then the statements of setUp, of the test method, of
-   tearDown, and the cleanups in the order of their registration (all registered by setUp) *)
-Record prog := { p_pre : list detail; p_setup : list step; p_body : list step; p_teardown : list step;
-                 p_cleanups : list (list step) }.
+   tearDown, and the cleanups in the order of their registration (all registered at the start of setUp).
+   p_setup_up / p_teardown_up: the number of statements of setUp / tearDown that stand before the upcall
+   super().setUp() / super().tearDown() (all of them when the number exceeds the length). *)
+Record prog := { p_pre : list detail; p_setup : list step; p_setup_up : nat; p_body : list step;
+                 p_teardown : list step; p_teardown_up : nat; p_cleanups : list (list step) }.
 
 Record trun := { r_raised : list (list bool); r_after_ran : bool; r_outcome : outcome;
                  r_details : option (list detail) }.
+
+(* TestCase.setUp / TestCase.tearDown themselves (testcase.py:762-786; unittest's do nothing): they record that
+   they were called and touch neither the details nor force_failure *)
+Definition base_setup (st : tstate) : tstate := st.
+Definition base_teardown (st : tstate) : tstate := st.
+
+(* a setUp / tearDown override: [up] statements, the upcall if they did not raise, the other statements *)
+Definition run_fn (base : tstate -> tstate) (st : tstate) (steps : list step) (up : nat)
+  : tstate * list bool * option exck :=
+  let '(st1, l1, e1) := run_body st (firstn up steps) in
+  match e1 with
+  | Some _ => (st1, l1, e1)
+  | None => let '(st2, l2, e2) := run_body (base st1) (skipn up steps) in (st2, (l1 ++ l2)%list, e2)
+  end.
 
 (* RunTest._run_core (runtest.py:130-180).  setUp raised: the cleanups only.  Otherwise the test method, then
    tearDown and the cleanups (LIFO) whatever happened.  In both cases, if force_failure is set afterwards,
    _raise_force_fail_error goes through _run_user: its AssertionError is caught last. *)
 Definition run_test (p : prog) : trun :=
   let st0 := {| t_details := Some (p_pre p); t_forced := false |} in
-  let '(st1, l0, e0) := run_body st0 (p_setup p) in
+  let '(st1, l0, e0) := run_fn base_setup st0 (p_setup p) (p_setup_up p) in
   match e0 with
   | Some x =>
       let '(st4, ls, es) := run_cleanups st1 (rev (p_cleanups p)) in
@@ -130,7 +146,7 @@ Definition run_test (p : prog) : trun :=
          r_details := t_details st4 |}
   | None =>
       let '(st2, l1, e1) := run_body st1 (p_body p) in
-      let '(st3, l2, e2) := run_body st2 (p_teardown p) in
+      let '(st3, l2, e2) := run_fn base_teardown st2 (p_teardown p) (p_teardown_up p) in
       let '(st4, ls, es) := run_cleanups st3 (rev (p_cleanups p)) in
       let forced := if t_forced st4 then [XFail] else [] in
       {| r_raised := l0 :: l1 :: l2 :: ls; r_after_ran := true;
